@@ -219,15 +219,22 @@ impl UserDefinedDataReader {
             return Err(DdsError::NotEnabled);
         }
 
-        match self.next_instance(previous_handle) {
-            Some(next_handle) => self.take(
-                max_samples,
-                sample_states,
-                view_states,
-                instance_states,
-                &Some(next_handle),
-            ),
-            None => Err(DdsError::NoData),
+        // Walk on to the following instances while the selected one has no matching samples
+        let mut previous_handle = previous_handle.clone();
+        loop {
+            match self.next_instance(&previous_handle) {
+                Some(next_handle) => match self.take(
+                    max_samples,
+                    sample_states,
+                    view_states,
+                    instance_states,
+                    &Some(next_handle),
+                ) {
+                    Err(DdsError::NoData) => previous_handle = Some(next_handle),
+                    result => return result,
+                },
+                None => return Err(DdsError::NoData),
+            }
         }
     }
 
@@ -243,15 +250,22 @@ impl UserDefinedDataReader {
             return Err(DdsError::NotEnabled);
         }
 
-        match self.next_instance(previous_handle) {
-            Some(next_handle) => self.read(
-                max_samples,
-                sample_states,
-                view_states,
-                instance_states,
-                &Some(next_handle),
-            ),
-            None => Err(DdsError::NoData),
+        // Walk on to the following instances while the selected one has no matching samples
+        let mut previous_handle = previous_handle.clone();
+        loop {
+            match self.next_instance(&previous_handle) {
+                Some(next_handle) => match self.read(
+                    max_samples,
+                    sample_states,
+                    view_states,
+                    instance_states,
+                    &Some(next_handle),
+                ) {
+                    Err(DdsError::NoData) => previous_handle = Some(next_handle),
+                    result => return result,
+                },
+                None => return Err(DdsError::NoData),
+            }
         }
     }
 }
